@@ -25,6 +25,9 @@ DRIVERS = {
     'C13': ('replayers.envw', dict(prop='C13')),
     'C20': ('replayers.envw', dict(prop='C20')),
     'C08': ('replayers.envw', dict(prop='C08')),
+    'C09': ('replayers.gridw', dict(prop='C09')),
+    'C10': ('replayers.gridw', dict(prop='C10')),
+    'C11': ('replayers.gridw', dict(prop='C11')),
     'C12': ('replayers.envw', dict(prop='C12')),
 }
 
